@@ -176,7 +176,7 @@ def check_case(case):
             value = dt.time(h, mi, s, us, tzinfo=tz)
             true_us = (((h * 60 + mi) * 60 + s) * 10**6 + us - off * 60 * 10**6) % R.US_DAY
         else:
-            value = dt.datetime(y, mo, d, h, mi, s, us, tzinfo=tz)
+            value = dt.datetime(y, mo, d, h, mi, s, us, tzinfo=tz, fold=case.get("fold", 0))
             true_us = R.local_us(y, mo, d, h, mi, s, 0, us) - off * 60 * 10**6
         try:
             text = T.unconvert(value)
@@ -264,7 +264,13 @@ class _DstZone(dt.tzinfo):
         self._std = std
 
     def _summer(self, d):
-        return d is not None and 4 <= d.month < 10
+        # summer time from 1 April 00:00 until 1 October 00:00 (summer clock), when the clock goes back one hour: the wall
+        # hour 23:00-24:00 of 30 September happens twice - fold=1 marks its second, winter-time occurrence (PEP 495)
+        if d is None or not (4 <= d.month < 10):
+            return False
+        if d.month == 9 and d.day == 30 and d.hour == 23 and getattr(d, "fold", 0) == 1:
+            return False
+        return True
 
     def utcoffset(self, d):
         if d is None:
@@ -321,6 +327,11 @@ def write_case(draw):
         std = draw(st.sampled_from([-300, -480, 60, 570, 0]))
         c = {k: v for k, v in c.items() if k not in ("name", "noname", "twin_off")}
         c.update(dst_std=std, off=std + (60 if 4 <= mo < 10 else 0))
+        if draw(st.integers(0, 3)) == 0:
+            # the repeated hour at the end of summer time, second occurrence; also the last half millisecond of summer time
+            c.update(mo=9, d=30, h=23, fold=1, off=std)
+        elif draw(st.integers(0, 5)) == 0:
+            c.update(mo=9, d=30, h=23, mi=59, s=59, us=draw(st.sampled_from([999499, 999500, 999999])), off=std + 60)
     return c
 
 
@@ -370,6 +381,8 @@ def _labels(c):
         labs.append("equal instant written twice in different zones")
     if "dst_std" in c:
         labs.append("zone object with date-dependent offset")
+    if c.get("fold"):
+        labs.append("repeated hour, second occurrence (fold=1)")
     return labs
 
 
